@@ -23,9 +23,9 @@ type c16Input struct {
 	// Expectation, derived by the generator from the instants it spelled (never by parsing).
 	WantStartNS *int64 `json:"want_start_ns,omitempty"` // nil = derived from defaults
 	WantEndNS   *int64 `json:"want_end_ns,omitempty"`
-	SinceNS     int64  `json:"since_ns,omitempty"` // meaning of Since when present and well-formed
+	SinceNS     int64  `json:"since_ns,omitempty"`     // meaning of Since when present and well-formed
 	WantStepNS  *int64 `json:"want_step_ns,omitempty"` // meaning of an explicit, well-formed step
-	Malformed   string `json:"malformed,omitempty"`   // "start", "end", "since", "step": that flag must be rejected
+	Malformed   string `json:"malformed,omitempty"`    // "start", "end", "since", "step": that flag must be rejected
 }
 
 type c16Obs struct {
@@ -160,7 +160,7 @@ func ip(v int64) *int64   { return &v }
 func c16Spellings(ns int64) []string {
 	s, frac := ns/1e9, ns%1e9
 	out := []string{
-		strconv.FormatInt(ns, 10), // unix nanoseconds
+		strconv.FormatInt(ns, 10),           // unix nanoseconds
 		fmt.Sprintf("%d.%03d", s, frac/1e6), // fractional seconds
 		time.Unix(0, ns).UTC().Format(time.RFC3339Nano),
 		time.Unix(0, ns).In(time.FixedZone("", -7*3600-1800)).Format(time.RFC3339Nano),
